@@ -123,7 +123,9 @@ def extract_default(
         if (
             ch == "."
             and (idx == (sub_l_len - 1) or not (sub_l[idx + 1]).isdigit())
-            and not sum(par.values())
+            and par["{"] == par["}"]
+            and par["["] == par["]"]
+            and par["("] == par[")"]
         ):
             break
         elif ch in par:
